@@ -8,6 +8,7 @@ import shutil
 import subprocess
 import sys
 import time
+import uuid
 
 ROOT = "/verif"
 SPEC = ROOT + "/spec"
@@ -61,7 +62,7 @@ def _tlc(args, cwd=SPEC, env=None, timeout=3600):
     e = dict(os.environ)
     if env:
         e.update(env)
-    meta = os.path.join(WORK, "tlcmeta_%d_%d" % (os.getpid(), int(time.time() * 1000) % 100000000))
+    meta = os.path.join(WORK, "tlcmeta_%d_%s" % (os.getpid(), uuid.uuid4().hex[:12]))
     cmd = ["tlc", "-metadir", meta, "-cleanup", "-noGenerateSpecTE"] + args
     try:
         p = subprocess.run(cmd, cwd=cwd, env=e, capture_output=True, text=True, timeout=timeout)
